@@ -309,32 +309,48 @@ def coop : P String := do
     s!"{comp} model={(coopSampleSR S A parents T bases s a us).1} impl={s1}"
   return v.render
 
+def finQ? : XRat → Option Rat
+  | .fin q => some q
+  | _ => none
+
 /-- `dir params… gammas… | out… insync` : sampleDirichletDistribution as a function of its gamma draws -/
 def dir : P String := do
-  let params ← P.qs; let gs ← P.qs; P.bar; let out ← P.qs; let insync ← P.bool; P.eof
+  let params ← P.qs; let gs ← P.qs; P.bar; let outx ← P.xs; let insync ← P.bool; P.eof
   let comp := "sampleDirichletDistribution"
   if gs.length != params.length then P.fail
-  -- assumption of the theorems: positive finite gamma draws (a draw that underflows to 0 is reported, not judged)
-  if !(gs.all (fun g => decide (0 < g))) then return "skip gamma_draw_not_positive" else
   let v : Verdict := { tag := if gs.length ≤ 1 then "trivial" else "dir" }
-  let v := v.failIf (out.length != gs.length) s!"{comp} wrong_length {out.length}"
-  let v := v.failIf (!(out.all (fun x => decide (0 ≤ x)) && isProb out)) s!"{comp} not_probability sum={ratStr out.sum}"
-  -- the defining clause of the sampler: the normalised gamma draws (Dirichlet(α) = (Γ(α_i))_i / Σ)
-  let v := v.failIf (!(closeL (dirichletFromGammas gs) out)) s!"{comp} not_normalised_gamma_draws model={(dirichletFromGammas gs).map ratStr} impl={out.map ratStr}"
-  let v := v.diffIf (!insync) s!"{comp} draws_consumed"
-  return v.render
+  match outx.mapM finQ? with
+  | none =>
+    -- NaN / inf in the result: never a probability vector; attributed to gamma underflow when every draw is exactly 0
+    let kind := if gs.all (fun g => g == 0) then "not_probability@gamma_underflow" else "not_probability"
+    return (v.failIf true s!"{comp} {kind} gammas={gs.map ratStr} out={outx.map toString}").render
+  | some out =>
+    -- theorems assume non-negative draws with a positive sum (dirichlet_valid, dirichlet_valid_nonneg)
+    if !(gs.all (fun g => decide (0 ≤ g)) && decide (0 < gs.sum)) then return "skip gamma_draws_not_positive" else
+    let v := if gs.all (fun g => decide (0 < g)) then v else { v with tag := "dir-some-draws-zero" }
+    let v := v.failIf (out.length != gs.length) s!"{comp} wrong_length {out.length}"
+    let v := v.failIf (!(out.all (fun x => decide (0 ≤ x)) && isProb out)) s!"{comp} not_probability sum={ratStr out.sum}"
+    -- the defining clause of the sampler: the normalised gamma draws (Dirichlet(α) = (Γ(α_i))_i / Σ)
+    let v := v.failIf (!(closeL (dirichletFromGammas gs) out)) s!"{comp} not_normalised_gamma_draws model={(dirichletFromGammas gs).map ratStr} impl={out.map ratStr}"
+    let v := v.diffIf (!insync) s!"{comp} draws_consumed"
+    return v.render
 
 /-- `beta a b x y | r insync` : sampleBetaDistribution -/
 def beta : P String := do
-  let _a ← P.q; let _b ← P.q; let x ← P.q; let y ← P.q; P.bar; let r ← P.q; let insync ← P.bool; P.eof
+  let _a ← P.q; let _b ← P.q; let x ← P.q; let y ← P.q; P.bar; let rx ← P.x; let insync ← P.bool; P.eof
   let comp := "sampleBetaDistribution"
-  if !(decide (0 < x) && decide (0 < y)) then return "skip gamma_draw_not_positive" else
   let v : Verdict := { tag := "beta" }
-  let v := v.failIf (!(decide (0 ≤ r) && decide (r ≤ 1))) s!"{comp} outside_unit_interval {ratStr r}"
-  -- the defining clause: Beta(a,b) = X / (X + Y) with X ~ Γ(a), Y ~ Γ(b) drawn in this order
-  let v := v.failIf (!(closeQ tolCmp (betaFromGammas x y) r)) s!"{comp} not_gamma_ratio model={ratStr (betaFromGammas x y)} impl={ratStr r}"
-  let v := v.diffIf (!insync) s!"{comp} draws_consumed"
-  return v.render
+  match finQ? rx with
+  | none =>
+    let kind := if x == 0 && y == 0 then "outside_unit_interval@gamma_underflow" else "outside_unit_interval"
+    return (v.failIf true s!"{comp} {kind} x={ratStr x} y={ratStr y} result={rx}").render
+  | some r =>
+    if !(decide (0 ≤ x) && decide (0 ≤ y) && decide (0 < x + y)) then return "skip gamma_draws_not_positive" else
+    let v := v.failIf (!(decide (0 ≤ r) && decide (r ≤ 1))) s!"{comp} outside_unit_interval {ratStr r}"
+    -- the defining clause: Beta(a,b) = X / (X + Y) with X ~ Γ(a), Y ~ Γ(b) drawn in this order
+    let v := v.failIf (!(closeQ tolCmp (betaFromGammas x y) r)) s!"{comp} not_gamma_ratio model={ratStr (betaFromGammas x y)} impl={ratStr r}"
+    let v := v.diffIf (!insync) s!"{comp} draws_consumed"
+    return v.render
 
 /-- `projx v… | out…` : non-finite input — outside the property's quantifier (see docs/C08.md); the run only shows it does not crash -/
 def projx : P String := do
